@@ -4,8 +4,10 @@
    tied to process_peering_event by the differential), applied to the records turned into Peers.
    Times: ms.  The API has zero latency in this model (the clean/touch PATCHes are atomic with the
    decision); what is delayed arbitrarily is the DELIVERY of the watch events (per-operator FIFO
-   inboxes), and what is arbitrary is the order of starts, exits, kills, keep-alives and foreign
-   writes. *)
+   inboxes), and what is arbitrary is the order of starts, exits, kills and foreign writes.
+   keepalive() is on a schedule: the first touch is immediate, the next one is due ka_period lifetime jitter
+   seconds later (jitter 5..10, chosen per touch), and time does not pass a due touch or a due wake-up
+   (tick_ok: asyncio fires the timers; the real coroutines' timing is checked against this by T:peernet). *)
 From Coq Require Import ZArith List String Bool.
 From KV Require Import Base.Json Model.Peering.
 Import ListNotations.
@@ -57,9 +59,10 @@ Record net := mkNet {
   n_status : astatus;
   n_ids : list string;                    (* identities ever started *)
   n_ops : string -> opst;
+  n_ka : string -> option Z;              (* keepalive(): when the next touch is due (None: not yet touched) *)
 }.
 
-Definition net0 (t0 : Z) : net := mkNet t0 0 [] [] (fun _ => op0).
+Definition net0 (t0 : Z) : net := mkNet t0 0 [] [] (fun _ => op0) (fun _ => None).
 
 Definition upd (f : string -> opst) (i : string) (o : opst) : string -> opst :=
   fun k => if String.eqb k i then o else f k.
@@ -73,7 +76,13 @@ Definition push (v : nat) (st : astatus) (f : string -> opst) : string -> opst :
            if is_up o && op_listed o then with_inbox o (op_inbox o ++ [(v, st)]) else o.
 
 Definition commit (s : net) (st' : astatus) (ops : string -> opst) : net :=
-  mkNet (n_now s) (S (n_ver s)) st' (n_ids s) (push (S (n_ver s)) st' ops).
+  mkNet (n_now s) (S (n_ver s)) st' (n_ids s) (push (S (n_ver s)) st' ops) (n_ka s).
+
+Definition updk (f : string -> option Z) (i : string) (v : option Z) : string -> option Z :=
+  fun k => if String.eqb k i then v else f k.
+
+Definition with_ka (s : net) (ka : string -> option Z) : net :=
+  mkNet (n_now s) (n_ver s) (n_status s) (n_ids s) (n_ops s) ka.
 
 Definition cfg_of (i : string) (o : opst) : cfg := mkCfg i (op_prio o) (op_life o) "default" true.
 
@@ -102,7 +111,7 @@ Inductive label :=
 | LTick (t : Z)
 | LStart (i : string) (prio life : Z) (pre : bool)   (* pre: toggle pre-activated (mandatory peering) *)
 | LList (i : string)                                 (* initial listing of the peering watcher *)
-| LKeepalive (i : string)                            (* keepalive(): touch *)
+| LKeepalive (i : string) (jitter : Z)               (* keepalive(): touch, then sleep ka_period lifetime jitter *)
 | LObserve (i : string) (ver : nat) (cleaned : list string) (toggle : bool)
                                                      (* process_peering_event on the next delivered snapshot;
                                                         what the implementation did is part of the label *)
@@ -116,30 +125,39 @@ Inductive label :=
 (* time may not pass an armed, un-interrupted sleep (asyncio fires the timer) *)
 Definition tick_ok (s : net) (t : Z) : bool :=
   forallb (fun i => let o := n_ops s i in
-                    if is_up o && match op_inbox o with [] => true | _ => false end
-                    then match op_wake o with Some w => t <=? w | None => true end
-                    else true) (n_ids s).
+                    (if is_up o && match op_inbox o with [] => true | _ => false end
+                     then match op_wake o with Some w => t <=? w | None => true end
+                     else true)
+                    (* ... nor a due keep-alive; the first touch is immediate *)
+                    && (if is_up o then match n_ka s i with Some due => t <=? due | None => false end else true))
+          (n_ids s).
 
 Definition step (s : net) (l : label) : option net :=
   match l with
   | LTick t =>
       if (n_now s <? t) && tick_ok s t
-      then Some (mkNet t (n_ver s) (n_status s) (n_ids s) (n_ops s)) else None
+      then Some (mkNet t (n_ver s) (n_status s) (n_ids s) (n_ops s) (n_ka s)) else None
   | LStart i prio life pre =>
       if is_alive (n_ops s i) then None else
       Some (mkNet (n_now s) (n_ver s) (n_status s)
                   (if mem_str i (n_ids s) then n_ids s else i :: n_ids s)
-                  (upd (n_ops s) i (mkOp Up prio life false pre None [])))
+                  (upd (n_ops s) i (mkOp Up prio life false pre None []))
+                  (updk (n_ka s) i None))
   | LList i =>
       let o := n_ops s i in
       if is_up o && negb (op_listed o)
       then Some (mkNet (n_now s) (n_ver s) (n_status s) (n_ids s)
                        (upd (n_ops s) i (mkOp Up (op_prio o) (op_life o) true (op_toggle o) (op_wake o)
-                                              [(n_ver s, n_status s)])))
+                                              [(n_ver s, n_status s)]))
+                       (n_ka s))
       else None
-  | LKeepalive i =>
+  | LKeepalive i j =>
       let o := n_ops s i in
-      if is_up o then Some (commit s (touched i o None (n_now s) (n_status s)) (n_ops s)) else None
+      if is_up o && (5 <=? j) && (j <=? 10)
+         && match n_ka s i with Some due => due <=? n_now s | None => true end
+      then Some (with_ka (commit s (touched i o None (n_now s) (n_status s)) (n_ops s))
+                         (updk (n_ka s) i (Some (n_now s + ka_period (op_life o) j * 1000))))
+      else None
   | LObserve i ver cleaned tg =>
       let o := n_ops s i in
       if negb (is_alive o && op_listed o) then None else
@@ -154,7 +172,7 @@ Definition step (s : net) (l : label) : option net :=
               let o' := mkOp (op_phase o) (op_prio o) (op_life o) true tg (o_wake out) rest in
               let ops' := upd (n_ops s) i o' in
               match cleaned with
-              | [] => Some (mkNet (n_now s) (n_ver s) (n_status s) (n_ids s) ops')
+              | [] => Some (mkNet (n_now s) (n_ver s) (n_status s) (n_ids s) ops' (n_ka s))
               | _ => Some (commit s (dels cleaned (n_status s)) ops')
               end
           end
@@ -173,21 +191,24 @@ Definition step (s : net) (l : label) : option net :=
   | LExit i =>
       let o := n_ops s i in
       if is_up o
-      then Some (commit s (touched i o (Some 0) (n_now s) (n_status s))
+      then Some (with_ka (commit s (touched i o (Some 0) (n_now s) (n_status s))
                         (upd (n_ops s) i (mkOp Exiting (op_prio o) (op_life o) (op_listed o) (op_toggle o) (op_wake o) (op_inbox o))))
+                         (updk (n_ka s) i None))
       else None
   | LGone i =>
       let o := n_ops s i in
       match op_phase o with
       | Exiting => Some (mkNet (n_now s) (n_ver s) (n_status s) (n_ids s)
-                               (upd (n_ops s) i (mkOp Down (op_prio o) (op_life o) false false None [])))
+                               (upd (n_ops s) i (mkOp Down (op_prio o) (op_life o) false false None []))
+                               (n_ka s))
       | _ => None
       end
   | LKill i =>
       let o := n_ops s i in
       if is_alive o
       then Some (mkNet (n_now s) (n_ver s) (n_status s) (n_ids s)
-                       (upd (n_ops s) i (mkOp Down (op_prio o) (op_life o) false false None [])))
+                       (upd (n_ops s) i (mkOp Down (op_prio o) (op_life o) false false None []))
+                       (updk (n_ka s) i None))
       else None
   | LForeign j r =>
       if is_alive (n_ops s j) then None else       (* the identity of a running operator is its own *)
@@ -211,3 +232,19 @@ Fixpoint rejected_at (s : net) (tr : list label) (n : nat) : option nat :=
 
 Definition accepts (t0 : Z) (tr : list label) : bool :=
   match rejected_at (net0 t0) tr 0 with None => true | Some _ => false end.
+
+(* ---------- the JSON form of the abstract status (what the API object's .status looks like) ---------- *)
+(* [fmt] renders an instant as the lastseen string (datetime.isoformat); the only thing assumed about it, where
+   it matters, is that iso8601.parse_date reads it back (odate (fmt t) = Some t). *)
+Definition enc_rec (fmt : Z -> string) (r : arec) : json :=
+  JObj ([("priority", JNum (r_prio r)); ("lifetime", JNum (r_life r))]
+        ++ match r_seen r with Some t => [("lastseen", JStr (fmt t))] | None => [] end).
+
+Definition enc_status (fmt : Z -> string) (st : astatus) : json :=
+  JObj (map (fun kv => (fst kv, enc_rec fmt (snd kv))) st).
+
+(* inside the range of timedelta / datetime (no OverflowError) *)
+Definition rec_in_range (now : Z) (r : arec) : bool := td_ok (r_life r) && dt_ok (dl_at now r).
+
+Definition fmt_tab (tab : list (Z * string)) (t : Z) : string :=
+  match find (fun p => fst p =? t) tab with Some p => snd p | None => "?" end.
